@@ -568,7 +568,10 @@ def step (st : St) (toks : List String) : St × String :=
   | "e2e.start" :: name :: rest =>
     match kv rest "protocol", kv rest "cipher", kv rest "mode" with
     | some proto, some cipher, some mode =>
-      let okCfg := (Config.cipherOf cipher).isSome && (Consts.protocolNames.any (·.1 == proto)) && (Consts.modeNames.any (·.1 == mode))
+      -- `cipher=(none)`: the configuration has no `cipher` key; it deserialises (the field defaults to the unknown kind),
+      -- a shadowsocks entry then ends its start-up with "unknown cipher kind", trojan does not use the field
+      let noCipher := cipher == "(none)"
+      let okCfg := (noCipher || (Config.cipherOf cipher).isSome) && (Consts.protocolNames.any (·.1 == proto)) && (Consts.modeNames.any (·.1 == mode))
       if okCfg then
         -- (`cmode`: the client's mode when it differs — datagrams of vmess / trojan travel inside the tcp transport)
         let udp := match (Consts.modeNames.find? (·.1 == (kv rest "cmode").getD mode)) with
@@ -579,7 +582,7 @@ def step (st : St) (toks : List String) : St × String :=
           | some u => (u.splitOn ";").length
           | none => 0
         -- (a shadowsocks server whose key or user keys are not acceptable ends its start-up with an error: it never serves)
-        let up := proto != "shadowsocks" || (match kv rest "spw", kv rest "users" with
+        let up := if noCipher then proto == "trojan" else proto != "shadowsocks" || (match kv rest "spw", kv rest "users" with
           | some spw, some us => (Ss.ctxOfConfig C cipher spw (parseUsers us)).isSome
           | _, _ => true)
         ({ st with objs := st.objs.insert name (.world { protocol := proto, udp := udp, link := kv rest "link" == some "1" || kv rest "link" == some "chop", users := users, ids := cipher.startsWith "2022", serverUp := up, started := up }) }, "ok")
